@@ -786,6 +786,17 @@ func genEx(t *rapid.T, want string, depth int) *Ex {
 		case 0:
 			tt := pick(t, "eqT", []string{"int", "float", "str", "bool"})
 			e = mk(pick(t, "eq", []string{"==", "!="}), genEx(t, tt, d), genEx(t, tt, d))
+			if tt == "int" && drawInt(t, 0, 4, "hugepair") == 0 {
+				// neighbouring integers that only exact integer comparison tells apart
+				huge := func(l string) *Ex {
+					v := &Ex{Op: "var", T: "int", Name: pick(t, l, []string{"h0", "h1", "imax", "imin", "h1", "h0"})}
+					if drawInt(t, 0, 2, l+"adj") == 0 {
+						return mk(pick(t, l+"op", []string{"+", "-"}), v, &Ex{Op: "lit", T: "int", Lit: "1"})
+					}
+					return v
+				}
+				e = mk(pick(t, "eq2", []string{"==", "!="}), huge("hl"), huge("hr"))
+			}
 		case 1:
 			e = mk(pick(t, "cmp", []string{"<", "<=", ">", ">="}), genEx(t, "num", d), genEx(t, "num", d))
 		case 2:
